@@ -35,6 +35,8 @@ VARIABLES l,        \* number of events consumed
 vars == <<l, call, t, stepdt, swept, cur, bad>>
 
 F(name, ok) == IF ok THEN {} ELSE {name}
+\* the Chang-Cooper table of an event (<<>> when the switch is off)
+DeljOf(ev) == IF "deljtab" \in DOMAIN ev THEN ev.deljtab ELSE <<>>
 AllNum(q) == \A j \in 1..Len(q) : IsNum(q[j])
 \* a parameter is [c0, c1]: the value c0 + c1 * time (c1 = "0" for constants)
 PVal(f, time) == RAdd(f.c0, RMul(f.c1, time))
@@ -116,20 +118,22 @@ EvSweepKernel ==
                     /\ \A j \in 1..c.P : j = k \/ CloseP(got.mig[j], want.mig[j])
            f == F("SweepUsesStepDt", e.dt = stepdt) \cup F("ParametersOfStepEndTime", parOK) \cup
                 F("SolvesScheme", Len(e.after) = Len(cur) /\
-                      IsStep(Dens(c, e.before), Dens(c, e.after), c.grids, k, got, e.dt, TauSolve)) \cup
+                      IsStepD(Dens(c, e.before), Dens(c, e.after), c.grids, k, got, e.dt, TauSolve, DeljOf(e))) \cup
                 F("MassLeavesOnlyAtCorners", Len(e.after) = Len(cur) /\ MassOK(c, k, got, e.dt, e.before, e.after))
        IN SweepFrame(k, f)
 
 \* coefficient arrays (flat, b WITHOUT 1/dt) against the scheme, and the solve against those arrays
-CoeffsOK(c, k, a, b, cc, par) ==
-    LET sh == Dens(c, cur).sh N == sh[k] IN
+CoeffsOK(c, k, a, b, cc, par, deljtab) ==
+    LET sh == Dens(c, cur).sh N == sh[k] on == deljtab # <<>> IN
     \A ix \in LineIxs(sh, k) :
-        LET sys == SysOf(c.grids, k, ix, par)
+        LET dj == IF on THEN deljtab[ToString(Flat(sh, ix) - 1)] ELSE HalfDelj(c.grids[k])
+            sys == SysOfD(c.grids, k, ix, par, dj)
             at(v) == Flat(sh, WithAxis(ix, k, v - 1))
             sc(v) == RAdd(RAdd(RAbs(sys.a[v]), RAbs(sys.b[v])), RAbs(sys.c[v]))
-        IN \A v \in 1..N : /\ RCloseRel(a[at(v)], sys.a[v], "0", RMul(TauLin, sc(v)))
-                           /\ RCloseRel(b[at(v)], sys.b[v], "0", RMul(TauLin, sc(v)))
-                           /\ RCloseRel(cc[at(v)], sys.c[v], "0", RMul(TauLin, sc(v)))
+            tol(v) == RAdd(RMul(TauLin, sc(v)), IF on THEN DeljCoefSlack(c.grids, k, ix, par, v) ELSE "0")
+        IN \A v \in 1..N : /\ RCloseRel(a[at(v)], sys.a[v], "0", tol(v))
+                           /\ RCloseRel(b[at(v)], sys.b[v], "0", tol(v))
+                           /\ RCloseRel(cc[at(v)], sys.c[v], "0", tol(v))
 SolvesArrays(c, k, a, b, cc, invdt, before, after) ==
     LET sh == Dens(c, cur).sh N == sh[k] IN
     \A ix \in LineIxs(sh, k) :
@@ -144,7 +148,7 @@ EvSweepPrecalc ==
     /\ LET c == call k == e.k
            par == ParAt(c, k, RAdd(t, stepdt))       \* constant-parameter path: any time gives the same value
            f == F("SweepUsesStepDt", e.dt = stepdt) \cup
-                F("CoefficientsMatchScheme", CoeffsOK(c, k, e.a, e.b, e.c, par)) \cup
+                F("CoefficientsMatchScheme", CoeffsOK(c, k, e.a, e.b, e.c, par, DeljOf(e))) \cup
                 F("SolvesGivenSystem", Len(e.after) = Len(cur) /\ SolvesArrays(c, k, e.a, e.b, e.c, RDiv("1", e.dt), e.before, e.after)) \cup
                 F("MassLeavesOnlyAtCorners", Len(e.after) = Len(cur) /\ MassOK(c, k, par, e.dt, e.before, e.after))
        IN SweepFrame(k, f)
@@ -156,11 +160,13 @@ EvSweepTridiag ==
            par == ParAt(c, 1, RAdd(t, stepdt))
            invdt == RDiv("1", stepdt)
            N == Len(cur)
-           sys == SysOf(c.grids, 1, <<0>>, par)
+           on == DeljOf(e) # <<>>
+           sys == SysOfD(c.grids, 1, <<0>>, par, IF on THEN e.deljtab["0"] ELSE HalfDelj(c.grids[1]))
            sc(v) == RAdd(RAdd(RAdd(RAbs(sys.a[v]), RAbs(sys.b[v])), RAbs(sys.c[v])), invdt)
-           coeffOK == \A v \in 1..N : /\ RCloseRel(e.a[v], sys.a[v], "0", RMul(TauLin, sc(v)))
-                                      /\ RCloseRel(e.b[v], RAdd(sys.b[v], invdt), "0", RMul(TauLin, sc(v)))
-                                      /\ RCloseRel(e.c[v], sys.c[v], "0", RMul(TauLin, sc(v)))
+           tol(v) == RAdd(RMul(TauLin, sc(v)), IF on THEN DeljCoefSlack(c.grids, 1, <<0>>, par, v) ELSE "0")
+           coeffOK == \A v \in 1..N : /\ RCloseRel(e.a[v], sys.a[v], "0", tol(v))
+                                      /\ RCloseRel(e.b[v], RAdd(sys.b[v], invdt), "0", tol(v))
+                                      /\ RCloseRel(e.c[v], sys.c[v], "0", tol(v))
            rhsOK == \A v \in 1..N : RCloseRel(e.r[v], RMul(cur[v], invdt), TauLin, "0")
            given == [a |-> e.a, b |-> e.b, c |-> e.c]
            f == F("CoefficientsMatchScheme", Len(e.a) = N /\ coeffOK) \cup F("RightHandSideIsPhiOverDt", Len(e.r) = N /\ rhsOK) \cup
